@@ -135,8 +135,13 @@ func (t *QuicTransport) exchangeStream(ctx context.Context, payload []byte, stre
 		err  error
 	}
 	rc := make(chan res, 1)
+	// The goroutine may outlive this call (ctx fires while it is still
+	// writing) and the caller releases payload on return: use a private
+	// copy, and do not touch the named results of the outer function.
+	payloadCopy := copyMsg(payload)
 	go func() {
-		_, err = stream.Write(payload)
+		_, err := stream.Write(payloadCopy)
+		pool.ReleaseBuf(payloadCopy)
 		if err != nil {
 			stream.CancelRead(_DOQ_REQUEST_CANCELLED)
 			stream.CancelWrite(_DOQ_REQUEST_CANCELLED)
